@@ -53,9 +53,20 @@ func delivHist() *delivHistory {
 	return h
 }
 
-type delivBatch struct{ From, To uint64 }
+// FailAt > 0 (target "replica-applyfail" only): while this message is handled, the replica's local applier refuses
+// the FailAt-th entry of the message, every time it is offered (an environment answer: the local engine does not
+// take the write).
+type delivBatch struct {
+	From, To uint64
+	FailAt   int
+}
 
-func (b delivBatch) String() string { return fmt.Sprintf("[%d..%d]", b.From, b.To) }
+func (b delivBatch) String() string {
+	if b.FailAt > 0 {
+		return fmt.Sprintf("[%d..%d, local apply of entry #%d refused]", b.From, b.To, b.FailAt)
+	}
+	return fmt.Sprintf("[%d..%d]", b.From, b.To)
+}
 
 // delivCodec: messages of the "replica-zstd" / "replica-snappy" targets carry compressed payloads (legal in the
 // protocol and advertised by replicas; the primary of this tree happens to send everything uncompressed).
@@ -103,9 +114,15 @@ type delivTarget interface {
 	nacks() []uint64
 }
 
-type delivRec struct{ got []walEnt }
+type delivRec struct {
+	got    []walEnt
+	refuse *wal.Entry // refused while set
+}
 
 func (r *delivRec) Apply(e *wal.Entry) error {
+	if f := r.refuse; f != nil && f.SequenceNumber == e.SequenceNumber && f.Type == e.Type && string(f.Key) == string(e.Key) {
+		return fmt.Errorf("local engine refuses the write")
+	}
 	r.got = append(r.got, walEnt{Type: e.Type, Key: append([]byte{}, e.Key...), Val: append([]byte{}, e.Value...), Seq: e.SequenceNumber})
 	return nil
 }
@@ -145,6 +162,27 @@ type replicaTarget struct {
 }
 
 func (t *replicaTarget) deliver(m *rp.WALStreamResponse) error { return t.r.VerifDeliver(m) }
+
+// checkAppliedNoHole: with local apply failures a retransmission may legitimately repeat entries; what must still
+// hold is that no entry is applied before all entries ahead of it in the primary's order have been applied.
+func checkAppliedNoHole(hist, applied []walEnt) (problem string, mask uint64) {
+	for i, a := range applied {
+		idx := -1
+		for j := range hist {
+			if sameWal(hist[j], a) {
+				idx = j
+			}
+		}
+		if idx < 0 {
+			return fmt.Sprintf("entry-altered\napplied entry %d is %v, which the primary never wrote", i, a), mask
+		}
+		if want := uint64(1)<<idx - 1; mask&want != want {
+			return fmt.Sprintf("entry-skipped\napplied entry %d is the primary's entry %d %v, but an earlier entry of the primary was never applied (applied so far: %v)", i, idx, a, applied[:i]), mask
+		}
+		mask |= 1 << idx
+	}
+	return "", mask
+}
 func (t *replicaTarget) reported() uint64                       { return t.r.GetLastAppliedSequence() }
 func (t *replicaTarget) expected() uint64                       { return t.r.VerifExpectedNext() }
 func (t *replicaTarget) applied() []walEnt                      { return t.rec.got }
@@ -178,12 +216,22 @@ func delivUnit(unit string, env *fw.Env) *fw.Result {
 	var alphabet []delivBatch
 	for i, f := range h.seqs {
 		for _, t := range h.seqs[i:] {
-			alphabet = append(alphabet, delivBatch{f, t})
+			alphabet = append(alphabet, delivBatch{From: f, To: t})
 		}
 	}
 	depth := 5
 	if env.Thorough {
 		depth = 7
+	}
+	faulty := kind == "replica-applyfail"
+	if faulty {
+		kind = "replica"
+		for _, b := range append([]delivBatch{}, alphabet...) {
+			for k := 1; k <= h.last[b.To]-h.first[b.From]+1; k++ {
+				alphabet = append(alphabet, delivBatch{b.From, b.To, k})
+			}
+		}
+		depth--
 	}
 	type node struct{ path []delivBatch }
 	seen := map[string]bool{}
@@ -193,12 +241,40 @@ func delivUnit(unit string, env *fw.Env) *fw.Result {
 	build := func(path []delivBatch) (key string, problem string) {
 		t := newDelivTarget(kind)
 		var prevReported uint64
+		fkey := ""
 		for step, b := range path {
 			expBefore := t.expected()
 			nBefore := len(t.applied())
+			if b.FailAt > 0 {
+				t.(*replicaTarget).rec.refuse = h.ents[h.first[b.From]+b.FailAt-1]
+			}
 			err := t.deliver(h.msg(b))
 			ap := t.applied()
 			where := fmt.Sprintf("after delivering %v as message %d of %v", b, step+1, path)
+			if faulty {
+				t.(*replicaTarget).rec.refuse = nil
+				p, mask := checkAppliedNoHole(hWal(h), ap)
+				if p != "" {
+					return "", firstLine(p) + "\n" + where + ": " + strings.SplitN(p, "\n", 2)[1]
+				}
+				rep := t.reported()
+				if rep < prevReported {
+					return "", fmt.Sprintf("applied-sequence-decreased\n%s the reported applied sequence went from %d to %d", where, prevReported, rep)
+				}
+				prevReported = rep
+				for i, e := range h.ents {
+					if e.SequenceNumber <= rep && mask>>i&1 == 0 {
+						return "", fmt.Sprintf("applied-sequence-ahead\n%s the replica reports %d, but the primary's entry %d (sequence %d, key %s) was never applied", where, rep, i, e.SequenceNumber, e.Key)
+					}
+				}
+				if b.FailAt > 0 {
+					outcomes["refused"] = true
+				}
+				if step == len(path)-1 {
+					fkey = fmt.Sprintf("%x", mask)
+				}
+				continue
+			}
 			if p := checkAppliedPrefix(hWal(h), ap); p != "" {
 				return "", firstLine(p) + "\n" + where + ": " + strings.SplitN(p, "\n", 2)[1]
 			}
@@ -243,6 +319,9 @@ func delivUnit(unit string, env *fw.Env) *fw.Result {
 				}
 			}
 		}
+		if faulty {
+			return fmt.Sprintf("%s/%d/%d", fkey, t.expected(), t.reported()), ""
+		}
 		return fmt.Sprintf("%d/%d/%d", len(t.applied()), t.expected(), t.reported()), ""
 	}
 	for d := 0; d <= depth && len(frontier) > 0; d++ {
@@ -277,6 +356,9 @@ func delivUnit(unit string, env *fw.Env) *fw.Result {
 		frontier = next
 	}
 	res.States = len(seen)
+	if faulty {
+		kind = "replica-applyfail"
+	}
 	res.Count("distinct_delivery_outcomes:"+kind, len(outcomes))
 	res.Sample(map[string]any{"deliveries_target": kind, "alphabet": fmt.Sprint(alphabet), "states": len(seen), "max_depth": depth})
 	return res
